@@ -180,6 +180,11 @@ def _scopes(E):
                 yield {"child": list(child), "parent": parent}
             if ln >= 2:
                 yield {"child": [parent[0]], "parent": parent[:1] + parent[:1] + parent[1:]}
+        for _ in range(40 if tier != "thorough" else 400):  # wide parents
+            ln = rng.choice([31, 32, 33, 63, 64, 65, 70, 128, 130])
+            parent = [f"e{i}" for i in range(ln)]
+            m = rng.getrandbits(ln) | (1 << (ln - 1))
+            yield {"child": [parent[i] for i in range(ln) if m >> i & 1], "parent": parent}
 
     def gen_from_mask(tier, rng):
         n = 5 if tier != "thorough" else 8
@@ -187,6 +192,11 @@ def _scopes(E):
             parent = [f"e{i}" for i in range(ln)]
             for m in range(2 ** ln + 2):
                 yield {"child": m, "parent": parent}
+        for _ in range(60 if tier != "thorough" else 600):  # wide masks (word-size boundaries)
+            ln = rng.choice([31, 32, 33, 63, 64, 65, 70, 127, 128, 130])
+            parent = [f"e{i}" for i in range(ln)]
+            m = rng.getrandbits(ln) | (1 << rng.randrange(max(0, ln - 6), ln))
+            yield {"child": m, "parent": parent}
 
     def gen_seg(tier, rng):
         b = bits(tier)
